@@ -546,6 +546,14 @@ class AverageLearner1D(Learner1D):
             y = seed_y_mapping.pop(seed)
             self._update_data(x, y, "new")
             self._update_data_structures((seed, x), y, "new")
+        else:
+            # Ignore seeds that were already told at x, as `tell` does; otherwise
+            # the old sample is overwritten and counted a second time.
+            seed_y_mapping = {
+                seed: y
+                for seed, y in seed_y_mapping.items()
+                if seed not in self._data_samples[x]
+            }
 
         ys = np.array(list(seed_y_mapping.values()))
 
